@@ -134,14 +134,24 @@ def _localise(prev, hist, what, shard):
     return {"history": hist}, what, alts
 
 
+def ladder_histories():
+    out = []
+    for L in (8, 16, 24, 32, 64, 255, 256, 300):
+        for s in ("x" * L, "€" * L, "a" * (L - 1) + "Ā"):
+            out.append([("add_short", 253), ("add_fixed_string", s, L, 0), ("add_char", 1), ("add_string", s)])
+            out.append([("add_fixed_string", s, L + 2, 1), ("add_fixed_encoded_string", s, L, 0), ("add_int", 253), ("add_encoded_string", s)])
+            out.append([("add_fixed_encoded_string", s, L + 1, 1), ("add_bytes", b"\x00\xff"), ("add_fixed_string", s, L, 1)])
+    return out
+
+
 def run(tier, seed):
     loader.install_shims()
     mid, last = menus()
     depth = 3 if tier == "quick" else 4
     res = par.pmap(_shard, [(c, depth) for c in par.chunks(mid, par.WORKERS * 4)])
-    count = sum(r[0] for r in res) + len(last) + 1
+    count = sum(r[0] for r in res) + len(last) + 1 + len(ladder_histories())
     bads = [b for r in res for b in r[1]]
-    for hist in [[]] + [[t] for t in last]:
+    for hist in [[]] + [[t] for t in last] + ladder_histories():
         what = run_history(hist)
         if what:
             bads.append(({"history": hist}, what, []))
